@@ -109,11 +109,11 @@ def gen(rng, n, tier):
             for e in edges:
                 e['z'] = [float(rng.randint(0, 60)) for _ in e['geom']]
         out.append({'edges': edges, 'tracks': tracks, 'radius': radius, 'tmode': rng.choice(['inc', 'inc', 'equal', 'dec', 'shuffle']), 'prior': rng.choice([None, None, [4.0, 1.0], [0.25, 3.0], [8.0, 0.5]]), 'noise': rng.choice([1.0, 5.0, 50.0]),
-                    'res': rng.choice([None, [3, 3], [5, 1], [2.5, 7], [1.5, 1.5]]), 'margin': rng.choice([0.05, 0.15, 0.5])})
+                    'res': rng.choice([None, [3, 3], [5, 1], [2.5, 7], [1.5, 1.5]]), 'margin': rng.choice([0.05, 0.15, 0.5]), 'densify': rng.random() < 0.3})
     return out
 
 
-def build(case):
+def build(case, _dense=False):
     from tracklib import Obs, ObsTime, ENUCoords, Track, Network, Node, Edge, SpatialIndex, computeAbsCurv
     net = Network()
     for k, e in enumerate(case['edges']):
@@ -121,6 +121,27 @@ def build(case):
         computeAbsCurv(tr)
         ed = Edge(k + 1, tr); ed.orientation = e['o']; ed.weight = tr.length()
         net.addEdge(ed, Node(e['s'], tr.getFirstObs().position), Node(e['t'], tr.getLastObs().position))
+    if case.get('densify') and not _dense:
+        # the network was digitised more finely (an extra vertex near the middle of every segment) and is generalised with the documented Network.simplify() before use, the abscissas being
+        # computed afterwards as for any network: the edges of the network are whatever polylines the simplification returned (reported with the observations and used by the model and the oracle).
+        net2 = Network()
+        for k, e in enumerate(case['edges']):
+            zz = e.get('z') or [0.0] * len(e['geom'])
+            pts = []
+            for i, ((x, y), z) in enumerate(zip(e['geom'], zz)):
+                if i > 0:
+                    (x0, y0), z0 = e['geom'][i - 1], zz[i - 1]
+                    L = math.hypot(x - x0, y - y0) or 1.0        # the extra vertex lies 0.2 off the chord: within the tolerance of the generalisation, but not on the line
+                    pts.append(((x0 + x) / 2 - 0.2 * (y - y0) / L, (y0 + y) / 2 + 0.2 * (x - x0) / L, z0))
+                pts.append((x, y, z))
+            tr = Track([Obs(ENUCoords(x, y, z)) for x, y, z in pts])
+            computeAbsCurv(tr)
+            ed = Edge(k + 1, tr); ed.orientation = e['o']; ed.weight = tr.length()
+            net2.addEdge(ed, Node(e['s'], tr.getFirstObs().position), Node(e['t'], tr.getLastObs().position))
+        net2.simplify(0.3)
+        net = net2
+        for k in range(len(case['edges'])):
+            computeAbsCurv(net.EDGES[net.getEdgeId(k)].geom)
     net.spatial_index = SpatialIndex(net, resolution=tuple(case['res']) if case['res'] else None, margin=case['margin'], verbose=False)
     net.prepare(verbose=False)
     tm = case.get('tmode', 'inc')                 # timestamps: increasing, all equal, decreasing (a reversed track), or out of order
@@ -135,9 +156,13 @@ def run(case):
     M = _mods()
     net, tracks = build(case)
     before = [[[o.position.getX(), o.position.getY(), o.position.getZ(), o.timestamp.toAbsTime()] for o in t] for t in tracks]
-    if case.get('prior'):                         # the same track objects were already map-matched with other parameters (a radius / noise sweep)
-        mapOnNetwork(tracks[0] if len(tracks) == 1 else TrackCollection(tracks), net, gps_noise=case['noise'] * case['prior'][1], search_radius=case['radius'] * case['prior'][0])
-    mapOnNetwork(tracks[0] if len(tracks) == 1 else TrackCollection(tracks), net, gps_noise=case['noise'], search_radius=case['radius'])
+    geoms = [[[o.position.getX(), o.position.getY()] for o in net.EDGES[net.getEdgeId(k)].geom] for k in range(len(case['edges']))]
+    try:
+        if case.get('prior'):                         # the same track objects were already map-matched with other parameters (a radius / noise sweep)
+            mapOnNetwork(tracks[0] if len(tracks) == 1 else TrackCollection(tracks), net, gps_noise=case['noise'] * case['prior'][1], search_radius=case['radius'] * case['prior'][0])
+        mapOnNetwork(tracks[0] if len(tracks) == 1 else TrackCollection(tracks), net, gps_noise=case['noise'], search_radius=case['radius'])
+    except Exception as ex:                           # reported with the geometry the network had (the open finding is recognised on it)
+        return {'exc': type(ex).__name__, 'msg': str(ex)[:200], 'geom': geoms}
     st = lambda s: [[s[0].getX(), s[0].getY()], s[1], s[2], s[3]]
     inf = [[st(t['hmm_inference', k]) for k in range(len(t))] for t in tracks]
     after = [[[o.position.getX(), o.position.getY(), o.position.getZ(), o.timestamp.toAbsTime()] for o in t] for t in tracks]
@@ -153,7 +178,14 @@ def run(case):
     for k in range(len(case['edges'])):
         g = net.EDGES[net.getEdgeId(k)].geom
         absc.append([g['abs_curv', i] for i in range(len(g))])
-    return {'inf': inf, 'before': before, 'after': after, 'states': states, 'E': Es, 'abs': absc}
+    return {'inf': inf, 'before': before, 'after': after, 'states': states, 'E': Es, 'abs': absc, 'geom': geoms}
+
+
+def edges_of(case, obs):
+    """the edges the network really had when the tracks were matched: those of the case, or (densified networks) what Network.simplify() made of them"""
+    if not case.get('densify') or 'geom' not in obs:
+        return case['edges']
+    return [dict(e, geom=g) for e, g in zip(case['edges'], obs['geom'])]
 
 
 def pt(p):
@@ -167,7 +199,7 @@ def cstate(s):
 def coq_case(case, obs):
     if 'exc' in obs:
         return None
-    edges = coq_list('{| egeom := %s; eabs := %s |}' % (coq_list(pt(p) for p in e['geom']), coq_list(fl(v) for v in a)) for e, a in zip(case['edges'], obs['abs']))
+    edges = coq_list('{| egeom := %s; eabs := %s |}' % (coq_list(pt(p) for p in e['geom']), coq_list(fl(v) for v in a)) for e, a in zip(edges_of(case, obs), obs['abs']))
     rows = coq_list('(%s, %s, %s, %s)' % (pt(o), coq_list('%d%%nat' % e for e in E), coq_list(cstate(s) for s in S), cstate(i))
                     for o, E, S, i in zip(case['tracks'][-1], obs['E'], obs['states'], obs['inf'][-1]))
     if len(obs['states']) != len(case['tracks'][-1]):                  # not one candidate list per observation of the last track: a row the model cannot satisfy
@@ -213,11 +245,11 @@ def along(geom, p):
     return best[0], best[1], s
 
 
-def will_raise(case):
+def will_raise(case, obs=None):
     """an observation on the supporting line of a vertical segment, where the code divides by b = 0 (open finding)"""
     for tr in case['tracks']:
         for o in tr:
-            for e in case['edges']:
+            for e in (edges_of(case, obs) if obs else case['edges']):
                 for a, b in zip(e['geom'], e['geom'][1:]):
                     if a[0] == b[0] and o[0] == a[0] and a[1] != b[1]:
                         v = b[1] - a[1]
@@ -231,7 +263,7 @@ def oracle(case, obs):
         return 'mapOnNetwork raised %s %s' % (obs['exc'], obs.get('msg', ''))
     if obs['before'] != obs['after']:
         return 'map-matching changed the observations: %r -> %r' % (obs['before'], obs['after'])
-    for e, a in zip(case['edges'], obs['abs']):                         # the abs_ok hypothesis of the theorem
+    for e, a in zip(edges_of(case, obs), obs['abs']):                         # the abs_ok hypothesis of the theorem
         s = 0.0
         for i, (p, q) in enumerate(zip(e['geom'], e['geom'][1:])):
             s += math.hypot(q[0] - p[0], q[1] - p[1])
@@ -249,7 +281,7 @@ def oracle(case, obs):
                 continue                                                # flagged as unmatched
             if not (isinstance(e, int) and 0 <= e < len(case['edges'])):
                 return 'track %d observation %d is matched to edge number %r, the network has %d edges' % (ti, k, e, len(case['edges']))
-            geom = case['edges'][e]['geom']
+            geom = edges_of(case, obs)[e]['geom']
             dp, sp, L = along(geom, p)
             if dp > 1e-6:
                 return 'track %d observation %d %r is matched to %r which is %.3g away from the geometry of edge %d' % (ti, k, o, p, dp, e)
@@ -263,7 +295,7 @@ def oracle(case, obs):
 
 
 def finding_key(case, obs, why):
-    if obs.get('exc') == 'ZeroDivisionError' and will_raise(case):
+    if obs.get('exc') == 'ZeroDivisionError' and will_raise(case, obs):
         return 'vertical-collinear'
     return None
 
